@@ -76,6 +76,13 @@ class Task:
         """Start a task. Shall be called by TaskRegistry.start_task() to ensure proper registration."""
         if self.xknx is None:
             raise RuntimeError("Task must be registered before start().")
+        if (
+            self.restart_after_reconnect
+            and not self.xknx.connection_manager.connected.is_set()
+        ):
+            # not while disconnected - self.reconnected() starts the task
+            # when the connection is established
+            return
         self._task = asyncio.create_task(self._start_internal(), name=self.name)
 
     async def _start_internal(self) -> None:
